@@ -170,7 +170,7 @@ def static_programs(tier):
                 progs.append((f"pair/{a[0]}+{b[0]}", "pair", text, mode, {}))
     cross = cross_programs(tier)
     if tier == "quick":  # each program costs three compilations: the quick tier keeps one of each shape
-        keep = ("x_behav2_dd", "x_behav3_dru", "x_behav4_dddd", "x_behav6_dddddd", "x_behav_two", "x_monitor3", "x_req3", "x_mix6")
+        keep = ("x_behav2_dd", "x_behav3_dru", "x_behav6_dddddd", "x_behav_two", "x_monitor3", "x_req3", "x_mix6")
         cross = [p for p in cross if p[0] in keep]
     progs.extend(cross)
     return [(i,) + p for i, p in enumerate(progs)]
